@@ -439,6 +439,7 @@ class Exec(object):
         move_to directory keeps its identity, its journal - which never moves - stays attached), plus the CDX file."""
         out = {}
         journals = {}
+        self.where = {}        # name -> the directory ('moved/', '', 'sub/') it was found in
         for tag, d in (('moved/', self.mdir), ('', self.wdir), ('sub/', os.path.join(self.wdir, 'sub'))):
             try:
                 names = sorted(os.listdir(d))
@@ -452,6 +453,7 @@ class Exec(object):
                     nm = 'sub/' + nm       # (prefix "sub/": the archive is the dot file sub/.warc[.gz])
                 role = role_of(nm)
                 if role in ('a', 'c'):
+                    self.where[nm] = tag
                     with _builtin_open(p, 'rb') as fh:
                         out[nm] = (fh.read(), None)
                 elif role == 'j':
@@ -823,8 +825,10 @@ class Exec(object):
         cdxon = False
         cdxhdr = True
         names = {}
+        # a line names its file by base name: the file NEXT TO the index (with --warc-move both end up in that directory)
+        cdx_dirs = set(self.where.get(n) for n in cur if role_of(n) == 'c')
         for name in cur:
-            if role_of(name) == 'a':
+            if role_of(name) == 'a' and (self.where.get(name) in cdx_dirs or self.where.get(name) == 'sub/' or not cdx_dirs):
                 names[os.path.basename(name)] = file_id(name)
         for name in sorted(cur):
             data, jb = cur[name]
